@@ -1013,7 +1013,7 @@ impl<'r> Gen<'r> {
             "rename" => {
                 a1 = format!("{}/{}", self.name(), self.name());
             }
-            "setattr" => a1 = format!("{}/{}", self.id(), self.id()),
+            "setattr" => a1 = if self.r.chance(1, 2) { format!("{}/{}", self.id(), self.id()) } else { format!("{}/{}/{}", self.id(), self.id(), self.r.range(1, 2)) },
             "readdir" | "readdirplus" => {
                 let size = if self.r.chance(1, 10) { 0 } else { 4096 };
                 let off = if self.r.chance(1, 3) { self.r.below(5) } else { 0 };
